@@ -73,7 +73,7 @@ def run(tier, v):
     cov["traces_validated_against_impl"] = s["runs"]
     # a pipeline goroutine held at each of its blocking operations while the peer falls silent / the
     # connection breaks (and held only, as a schedule perturbation)
-    E.run_points(h, "silence,writeerr,none", "TransferObs_c11.cfg", v, cov, tier, keyfn=keyfn)
+    E.run_points(h, "silence,writeerr,none,dstfull", "TransferObs_c11.cfg", v, cov, tier, keyfn=keyfn)
     cov["fault_kinds"] = {k[5:]: s[k] for k in s if k.startswith("kind_")}
     cov["tv_states"] = st
     cov["obs_files_rejected"] = bad
